@@ -634,13 +634,15 @@ def ofDumpAxis : J → Option Axis
     return { name, type, unit, min, max, scale, scaled_unit, offset }
   | _ => none
 
+def ofDumpBool : Option J → Option Bool
+  | some (.bool b) => some b
+  | _ => none
+
 def ofDumpProp : J → Option PropMeta
   | .obj kvs => do
     let identifier ← ofDumpStr (lookup kvs "identifier")
     let dtype ← ofDumpStr (lookup kvs "dtype")
-    let varlength ← match lookup kvs "varlength" with
-      | some (.bool b) => some b
-      | _ => none
+    let varlength ← ofDumpBool (lookup kvs "varlength")
     let unit ← ofDumpOptStr (lookup kvs "unit")
     let name ← ofDumpOptStr (lookup kvs "name")
     let description ← ofDumpOptStr (lookup kvs "description")
@@ -668,35 +670,43 @@ def ofDumpPropsDict : Option J → Option (List (String × PropMeta))
   | some (.obj kvs) => mapO (fun kv => (ofDumpProp kv.2).map (fun p => (kv.1, p))) kvs
   | _ => none
 
+def ofDumpAxesOpt : Option J → Option (Option (List Axis))
+  | some .null => some none
+  | some (.arr xs) => (mapO ofDumpAxis xs).map some
+  | _ => none
+
+def ofDumpTrackOpt : Option J → Option (Option (List (String × String)))
+  | some .null => some none
+  | some (.obj l) => (mapO (fun (kv : String × J) => (ofDumpStr (some kv.2)).map (fun s => (kv.1, s))) l).map some
+  | _ => none
+
+def ofDumpRelatedOpt : Option J → Option (Option (List RelatedObject))
+  | some .null => some none
+  | some (.arr xs) => (mapO ofDumpRelated xs).map some
+  | _ => none
+
+def ofDumpHintOpt : Option J → Option (Option DisplayHint)
+  | some .null => some none
+  | some j => (ofDumpHint j).map some
+  | none => none
+
+def ofDumpExtra : Option J → Option (List (String × J))
+  | some (.obj l) => some l
+  | _ => none
+
 def ofDump : J → Option Meta
   | .obj kvs => do
     let geff_version ← ofDumpStr (lookup kvs "geff_version")
-    let directed ← match lookup kvs "directed" with
-      | some (.bool b) => some b
-      | _ => none
-    let axes ← match lookup kvs "axes" with
-      | some .null => some none
-      | some (.arr xs) => (mapO ofDumpAxis xs).map some
-      | _ => none
+    let directed ← ofDumpBool (lookup kvs "directed")
+    let axes ← ofDumpAxesOpt (lookup kvs "axes")
     let node_props_metadata ← ofDumpPropsDict (lookup kvs "node_props_metadata")
     let edge_props_metadata ← ofDumpPropsDict (lookup kvs "edge_props_metadata")
     let sphere ← ofDumpOptStr (lookup kvs "sphere")
     let ellipsoid ← ofDumpOptStr (lookup kvs "ellipsoid")
-    let track_node_props ← match lookup kvs "track_node_props" with
-      | some .null => some none
-      | some (.obj l) => (mapO (fun (kv : String × J) => (ofDumpStr (some kv.2)).map (fun s => (kv.1, s))) l).map some
-      | _ => none
-    let related_objects ← match lookup kvs "related_objects" with
-      | some .null => some none
-      | some (.arr xs) => (mapO ofDumpRelated xs).map some
-      | _ => none
-    let display_hints ← match lookup kvs "display_hints" with
-      | some .null => some none
-      | some j => (ofDumpHint j).map some
-      | none => none
-    let extra ← match lookup kvs "extra" with
-      | some (.obj l) => some l
-      | _ => none
+    let track_node_props ← ofDumpTrackOpt (lookup kvs "track_node_props")
+    let related_objects ← ofDumpRelatedOpt (lookup kvs "related_objects")
+    let display_hints ← ofDumpHintOpt (lookup kvs "display_hints")
+    let extra ← ofDumpExtra (lookup kvs "extra")
     return { geff_version, directed, axes, node_props_metadata, edge_props_metadata, sphere, ellipsoid,
              track_node_props, related_objects, display_hints, extra }
   | _ => none
